@@ -858,6 +858,14 @@ class TrajectoryStore:
         if not self.indexable:
             raise RuntimeError('Cannot lookup by flight_id in non-indexable store')
 
+        # An in-memory store has no index group (that lives in the NetCDF
+        # file): everything it holds is in the cache, so search that.
+        if not self.nc_linked:
+            for traj in self._trajectories.values():
+                if traj.flight_id == flight_id:
+                    return traj
+            return None
+
         # Reindex lazily if needed.
         if self.index_stale:
             self._reindex()
@@ -1531,6 +1539,11 @@ class TrajectoryStore:
         # NOTE: Takes about 1.5s on a store with 1 million trajectories.
 
         if not self.indexable or not self.index_stale:
+            return
+
+        # Nothing to do for an in-memory store: the index is built (and the
+        # stale flag cleared) once the store is saved to NetCDF files.
+        if not self.nc_linked:
             return
 
         # Get the NetCDF4 groups for the base field set.
